@@ -209,6 +209,20 @@ def _exec_state(df, dft, st, emb, variant, part):
             if abs(math.cos(v) - c[0] / c[1]) > 1e-9:
                 part.violation(key("C19_NeighbourAngle", "value"), "angle is not the angle between the two unit vectors", wit(cell=k, got=v, want_cos=c))
                 break
+        # the same texture with zero vectors in every fourth cell (an empty part of the sample): whatever the angle next to a
+        # zero vector is taken to be, it is a number in [0, pi] (seeded change C19-22 divided by the lengths: 0/0 = NaN)
+        try:
+            arr0 = np.array(f.array, dtype=float, copy=True)
+            flat0 = arr0.reshape((-1, arr0.shape[-1]))
+            flat0[1::4] = 0.0
+            f0 = df.Field(f.mesh, nvdim=f.nvdim, value=arr0, valid=f.valid, vdim_mapping=f.vdim_mapping)
+            v0 = fldmod.flatten(dft.neighbouring_cell_angle(f0, direction=dims[d]).array)[:, 0]
+            bad = [int(k) for k in range(len(v0)) if not (math.isfinite(float(v0[k])) and 0.0 <= float(v0[k]) <= math.pi)]
+            if bad:
+                part.violation(key("C19_NeighbourAngle", "range/zero-vectors"), "angle outside [0, pi] (or not a number) next to a zero vector",
+                               wit(cell=bad[0], got=float(v0[bad[0]])))
+        except Exception as ex:  # noqa: BLE001
+            part.violation(key("C19_NeighbourAngle", "raises/zero-vectors"), "neighbouring_cell_angle raises on a field with zero vectors", wit(exc=repr(ex)))
         part.nontriv("angle", str(t["dirs"]), d, emb.name)
         return
     if kind == "emergent":
